@@ -40,6 +40,7 @@ const L_DONE: &str = "C18.bounded.completed_drawdowns";
 const L_CUR: &str = "C18.bounded.current_drawdown_mid_decline_not_disturbed";
 const L_MAX: &str = "C18.bounded.max_drawdown";
 const L_MEAN: &str = "C18.bounded.mean_drawdown";
+const L_ROUTE: &str = "C18.bounded.summary_generator_feeds_each_asset_its_own_equity_curve";
 
 /// OBSERVATION on the unchanged tree (strict clause only with VX_C18_KNOWN=1, see `tear_sheet_generate_repeatable`):
 /// `TearSheetGenerator::generate` (and `TearSheetAssetGenerator::generate`) feed the IN-PROGRESS drawdown into the mean / max generators on
@@ -248,8 +249,64 @@ fn exited(pnl: Decimal, t: DateTime<Utc>) -> PositionExited<QuoteAsset, Instrume
     }
 }
 
+/// 'per asset': the REAL TradingSummaryGenerator::init over asset tables in which any subset of the assets has a balance so far, then equity
+/// points delivered by AssetIndex (as the engine does): the generator of exactly that asset - a twin of the statistics the table held for it,
+/// fed the same points - takes them, every other asset's generator stays as the table held it, one generator per asset of the table.
+fn summary_asset_routing(s: &mut Search) {
+    use barter::{engine::state::{asset::generate_empty_indexed_asset_states, instrument::{InstrumentStates, data::DefaultInstrumentMarketData}}, statistic::summary::TradingSummaryGenerator};
+    use barter_execution::balance::{AssetBalance, Balance};
+    use barter_instrument::{Underlying, asset::AssetIndex, exchange::ExchangeId, index::IndexedInstruments, instrument::Instrument};
+    use barter_integration::snapshot::Snapshot;
+    let indexed = IndexedInstruments::new([
+        Instrument::spot(ExchangeId::BinanceSpot, "binance_spot_btc_usdt", "BTCUSDT", Underlying::new("btc", "usdt"), None),
+        Instrument::spot(ExchangeId::BinanceSpot, "binance_spot_eth_usdt", "ETHUSDT", Underlying::new("eth", "usdt"), None),
+        Instrument::spot(ExchangeId::Kraken, "kraken_btc_usd", "XBTUSD", Underlying::new("btc", "usd"), None),
+    ]);
+    let n = indexed.assets().len();
+    let bal = |v: i64| Balance { total: Decimal::from(v), free: Decimal::from(v) };
+    for mask in 0u32..(1 << n) {
+        let mut table = generate_empty_indexed_asset_states(&indexed);
+        for i in 0..n {
+            if mask & (1 << i) != 0 {
+                let st = table.asset_index_mut(&AssetIndex(i));
+                let first = AssetBalance { asset: AssetIndex(i), balance: bal(100 + i as i64), time_exchange: time_of(0) };
+                st.statistics.update_from_balance(Snapshot(&first));
+                st.balance = Some(Timed::new(first.balance, first.time_exchange));
+            }
+        }
+        for k in 0..n {
+            self::count(s);
+            let points: Vec<(i64, DateTime<Utc>)> = [90i64, 60, 130, 110].iter().enumerate().map(|(j, v)| (*v + k as i64, time_of(1 + j))).collect();
+            let what = || format!("TradingSummaryGenerator::init over {n} assets {:?}, assets with a balance at init: {:?}; then update_from_balance(AssetIndex({k})) with totals {:?}",
+                table.0.keys().map(|a| format!("{}:{}", a.exchange, a.asset)).collect::<Vec<_>>(), (0..n).filter(|i| mask & (1 << i) != 0).collect::<Vec<_>>(), points.iter().map(|p| p.0).collect::<Vec<_>>());
+            let run = std::panic::catch_unwind(std::panic::AssertUnwindSafe(|| {
+                let mut g = TradingSummaryGenerator::init::<DefaultInstrumentMarketData>(Decimal::ZERO, time_of(0), time_of(0), &InstrumentStates(Default::default()), &table);
+                for (v, t) in &points { g.update_from_balance(Snapshot(&AssetBalance { asset: AssetIndex(k), balance: bal(*v), time_exchange: *t })); }
+                g
+            }));
+            let Ok(g) = run else { s.fails(&[(L_ROUTE, "panic".to_string(), "the equity points reach the generator of the asset they name".to_string())], what); continue; };
+            let mut out: Vec<Fail> = vec![];
+            if g.assets.len() != n { out.push((L_ROUTE, format!("{} asset generator(s)", g.assets.len()), format!("one per asset of the table ({n})"))); }
+            for j in 0..n.min(g.assets.len()) {
+                let (key, st) = table.0.get_index(j).unwrap();
+                let mut want = st.statistics.clone();
+                if j == k { for (v, t) in &points { want.update_from_balance(Snapshot(&AssetBalance { asset: AssetIndex(k), balance: bal(*v), time_exchange: *t })); } }
+                let (gk, gv) = g.assets.get_index(j).unwrap();
+                if gk != key || *gv != want {
+                    out.push((L_ROUTE, format!("entry {j}: {}:{} balance_now {:?} peak {:?}", gk.exchange, gk.asset, gv.balance_now.map(|b| b.total), gv.drawdown.peak),
+                        format!("entry {j}: {}:{} balance_now {:?} peak {:?}{}", key.exchange, key.asset, want.balance_now.map(|b| b.total), want.drawdown.peak, if j == k { " (the asset the points name)" } else { " (untouched)" })));
+                    break;
+                }
+            }
+            s.fails(&out, what);
+        }
+    }
+}
+fn count(s: &mut Search) { s.n += 1; }
+
 pub fn run(seed: u64, thorough: bool) -> u64 {
     let mut s = Search { seen: HashSet::new(), n: 0 };
+    { let hook = std::panic::take_hook(); std::panic::set_hook(Box::new(|_| {})); summary_asset_routing(&mut s); std::panic::set_hook(hook); }
     let curve = |vs: &[i64]| -> Vec<Pt> { vs.iter().enumerate().map(|(k, v)| (Decimal::from(*v), time_of(k))).collect() };
     // crafted: recovery exactly to the peak mid-decline (then deeper / shallower / above), flat at the peak, monotone, generate() mid-decline
     for vs in [&[100i64, 80, 100, 90, 120][..], &[100, 90, 100, 80, 120], &[100, 100, 100, 120], &[100, 80, 100, 100, 70, 100, 101], &[100, 110, 120, 130], &[100, 90, 80, 70],
